@@ -292,6 +292,7 @@ var c10Quotes = []quote{
 	{5, 100, 5, 100}, {1, 1000, 1, 1000}, {50, 1000, 50, 1000}, {500, 1000, 500, 1000}, {1, 1, 1, 1}, {2, 1, 2, 1}, {3, 1, 3, 1},
 	{7, 3, 7, 3}, {1000, 1, 1000, 1}, {500, 1000, 1, 4}, {1, 2, 250, 1000}, {3, 1, 1, 1000}, {1, 1000, 3, 1},
 	{350, 1000, 350, 1000}, {35, 100, 7, 20}, // rates that are not exact binary fractions
+	{0, 1, 1, 1}, {1, 2, 0, 1000}, // a type that is free to mine
 }
 
 func init() {
@@ -341,7 +342,7 @@ func init() {
 											if d >= 1 && d <= 7 && nout >= 1 {
 												yield(c10Case{NIn: nin, Signed: sg, NOut: nout, Mix: mix, Dest: d, Q: q, Rel: rel, SharedPtr: true})
 											}
-											for _, form := range []int{1, 2, 5, 7, 8, 9} {
+											for _, form := range []int{1, 2, 5, 7, 8, 9, 10} {
 												yield(c10Case{NIn: nin, Signed: sg, NOut: nout, Mix: mix, Dest: d, Q: q, Rel: rel, QForm: form})
 											}
 										}
